@@ -33,6 +33,7 @@ OPS = [  # (name, family, op, trial kind, test kind, k, assembler)
     ("lapV_fmm", "laplace", "single_layer", "DP0", "DP0", None, "fmm"),
     ("helV_fmm", "helmholtz", "single_layer", "P1", "P1", 1.3 + 0.2j, "fmm"),
     ("lapK_fmm", "laplace", "double_layer", "P1", "P1", None, "fmm"),
+    ("lapV_dense_single", "laplace", "single_layer", "DP0", "DP0", None, "dense/single"),   # "<assembler>/<precision>", see vlib.ops.boundary
 ]
 POTS = [("lapSL_pot", "laplace", "single_layer", "DP0", None, "dense"), ("helSL_pot", "helmholtz", "single_layer", "P1", 1.3 + 0.2j, "dense"),
         ("lapSL_pot_fmm", "laplace", "single_layer", "DP0", None, "fmm")]
@@ -209,7 +210,7 @@ def main():
             for step in range(hlen):
                 # (mutating an *explicit* parameter object after construction is not among the histories the property quantifies
                 # over - it names changes of the global parameters - so that event is not generated)
-                ev = rng.choice(["set_global", "create", "create", "observe", "observe", "observe", "potential", "mass", "clear_cache", "bary", "set_global"])
+                ev = rng.choice(["set_global", "create", "create", "observe", "observe", "observe", "potential", "mass", "clear_cache", "bary", "set_global", "algebra"])
                 if step == 0 or (ev == "observe" and not handles):
                     ev = "create"   # every history starts with an operator, and an observation never falls into the void
                 if ev == "set_global":
@@ -407,7 +408,7 @@ def main():
                         if mutated:
                             cls = "explicit_parameter_object_mutated_after_construction:" + assembler
                         elif lazy and assembler != "fmm":
-                            cls = "lazy_global_binding:" + assembler
+                            cls = "lazy_global_binding:" + assembler.split("/")[0]
                         elif assembler == "fmm" and (fmm_explicit_vs_global or lazy):
                             cls = "fmm:evaluators_read_global_quadrature_order"
                         elif fmm_cached_other:
@@ -425,11 +426,72 @@ def main():
                                              "n": int(n), "xseed": 0})
                         Xf = np.random.default_rng(0).normal(size=(n, 2))
                         fresh_expected.append(observe_operator(hd["op"], Xf, form))
+                    hd["matches_isolated"] = bool(dev <= 1e-12)
                     trace.append(["observe", name, mname, form])
+                elif ev == "algebra" and [h_ for h_ in handles if h_.get("matches_isolated")]:
+                    # derived operators (scalar multiples, negation, difference) are new objects: assembling them yields the
+                    # scaled matrix AND leaves the operand what it was (decided by the later observations of the operand)
+                    cand = [h_ for h_ in handles if h_.get("matches_isolated")]
+                    hd = cand[int(rng.integers(len(cand)))]
+                    cfg, mname = hd["cfg"], hd["mesh"]
+                    s = float(rng.choice([2.0, -1.0, 0.5, -4.0]))
+                    n = hd["op"].domain.global_dof_count
+                    X = ctx.rng("X", n).normal(size=(n, 2))
+                    cid = "%s:s%d:%s:%s:times%g" % (hid, step, cfg[0], mname, s)
+                    derived = (-hd["op"]) if s == -1.0 else (s * hd["op"])
+                    got = np.asarray(derived.weak_form() @ X)
+                    ref = s * iso_cache[iso_key(mname, cfg, hd["eff"], "weak", None)] if iso_key(mname, cfg, hd["eff"], "weak", None) in iso_cache else None
+                    if ref is not None:
+                        dev = O.rel(got, ref) if got.shape == ref.shape else np.inf
+                        n_obs += 1
+                        ctx.case(cid, {"history": trace[-6:], "observable": "%g * %s" % (s, cfg[0]), "rel_dev": dev})
+                        if not (dev <= 1e-12):
+                            ctx.violation("history_dependence:scalar_multiple:" + cfg[6].split("/")[0], "%s: (%g * op).weak_form() differs from %g times the isolated matrix by %.3e; trace %s"
+                                          % (cid, s, s, dev, trace[-8:]), cid)
+                    trace.append(["scalar_multiple", cfg[0], mname, s])
+                    events += 1
         for mm_, msg in rec.drain():
             ctx.violation(mm_, "%s: %s" % (hid, msg), hid)
     set_globals(api, defaults)
     ctx.lap("histories")
+
+    # ------------------------------------------------------------------ scripted histories: derived operators leave their operands alone
+    # (the random histories reach this only sometimes; here every dense configuration, in double and in single precision,
+    # goes through: observe, assemble 2*op, -op, op - other, 0.5*op, observe again)
+    for cfg in [c for c in OPS if c[6].split("/")[0] == "dense"] + ([("lapK_dense_single", "laplace", "double_layer", "P1", "P1", None, "dense/single")] if not ctx.quick else []):
+        cid = "scripted:derived_operators:%s" % cfg[0]
+        if not ctx.want(cid):
+            continue
+        with ctx.guard(cid, "history:scripted"):
+            name, fam, op, tk, sk, k, assembler = cfg
+            g_ = M.to_grid(ms["cube"])
+            trial, test = api.function_space(g_, *KA[tk]), api.function_space(g_, *KA[sk])
+            mk = lambda: O.boundary(api, fam, op, trial, test, test, k, assembler=assembler)  # noqa: E731
+            a, b = mk(), mk()
+            n = trial.global_dof_count
+            X = ctx.rng("X", n).normal(size=(n, 2))
+            first = np.array(a.weak_form() @ X)
+            iso = isolated(api, M, O, ms["cube"], cfg, get_globals(api), X, "weak")
+            worst_d = O.rel(first, iso)
+            steps = []
+            for label, build, factor in (("2*a", lambda: 2.0 * a, 2.0), ("-a", lambda: -a, -1.0), ("a-b", lambda: a - b, 0.0), ("0.5*a", lambda: 0.5 * a, 0.5), ("a+a", lambda: a + a, 2.0)):
+                got = np.array(build().weak_form() @ X)
+                d_val = float(np.abs(got - factor * iso).max() / max(np.abs(iso).max(), 1e-300))
+                again = np.array(a.weak_form() @ X)
+                d_op = O.rel(again, iso)
+                d_b = O.rel(np.array(b.weak_form() @ X), iso)
+                steps.append([label, d_val, d_op, d_b])
+                n_obs += 3
+                if d_val > (1e-12 if "/single" not in assembler else 1e-6):
+                    ctx.violation("history_dependence:derived_operator_value:" + assembler.split("/")[0], "%s: (%s).weak_form() differs from %g x the isolated matrix by %.3e" % (cid, label, factor, d_val), cid)
+                if d_op > 1e-12 or d_b > 1e-12:
+                    ctx.violation("history_dependence:operand_changed_by_derived_operator:" + assembler.split("/")[0],
+                                  "%s: after assembling %s the operands differ from their isolated values by %.3e / %.3e" % (cid, label, d_op, d_b), cid)
+                    break
+            ctx.case(cid, {"config": name, "first_vs_isolated": worst_d, "steps": steps})
+            if worst_d > 1e-12:
+                ctx.violation("history_dependence:" + assembler.split("/")[0], "%s: first observation differs from the isolated value by %.3e" % (cid, worst_d), cid)
+    ctx.lap("scripted_histories")
 
     # ------------------------------------------------------------------ constructor sweep: explicit parameters reach every assembler object
     # Invariant at a hook: for EVERY public boundary-operator constructor (all families x operators x real / complex / purely
